@@ -324,3 +324,9 @@ def run(ctx, R):
                 if rd:
                     R.violation("C19.R4", g.short, key(g, st), loc(g, st), f"runs before the configuration file is loaded but depends on option(s) {sorted(rd)[:4]}")
         R.ok("C19.R4", g.short, "configuration loaded before option consumers", loc(g, load_call))
+    # ---------------------------------------------------------------- R6 (shared with C15.R7)
+    # a process-wide setting derived from an option ends initialisation holding the option's final
+    # value, whichever channel set it; otherwise the file's value has no effect on files parsed in-process
+    from .c15 import r7 as _process_wide_settings
+
+    _process_wide_settings(ctx, R, rule="C19.R6")
